@@ -127,8 +127,8 @@ func permutedTokenCompExtras(t *rapid.T, m *MClaims) []byte {
 func isBeyondBuilders(m *MClaims) bool { return !m.IsCanned() }
 
 func TestC10_WireFormat(t *testing.T) {
-	st := NewStats("C10", "TestC10_WireFormat", "rapid: valid claims-sets of both profiles built (a) through NewClaims+setters, (b) as struct literals, (c) by decoding independently encoded tokens with permuted key order, extra unknown keys at top level and inside component maps (incl. the P1 no-measurements form), optionally followed by an in-place update of one decoded component through the object the getter returns; the bytes of ValidateAndEncodeClaimsToCBOR are parsed by the independent reader and compared key by key with the model's wire map (definite lengths, no duplicates/tags/trailing bytes, exact key set, exact values, bare-bstr nonce, never list+flag). Non-trivial = not the canned builder shape; distinct = class vector + route")
-	st.Require = []string{"route=setters", "route=literal", "route=decoded", "route=decoded+touched", "P1", "P2", "nomeas"}
+	st := NewStats("C10", "TestC10_WireFormat", "rapid: valid claims-sets of both profiles built (a) through NewClaims+setters (optionally on an object on which every claim had already been set to another valid value of possibly different length), (b) as struct literals, (c) by decoding independently encoded tokens with permuted key order, extra unknown keys at top level and inside component maps (incl. the P1 no-measurements form), optionally followed by an in-place update of one decoded component through the object the getter returns; the bytes of ValidateAndEncodeClaimsToCBOR are parsed by the independent reader and compared key by key with the model's wire map (definite lengths, no duplicates/tags/trailing bytes, exact key set, exact values, bare-bstr nonce, never list+flag). Non-trivial = not the canned builder shape; distinct = class vector + route")
+	st.Require = []string{"route=setters", "route=literal", "route=decoded", "route=decoded+touched", "route=setters-twice", "P1", "P2", "nomeas"}
 	defer st.Flush(t)
 	rapid.Check(t, func(t *rapid.T) {
 		p := drawProf(t)
@@ -138,7 +138,14 @@ func TestC10_WireFormat(t *testing.T) {
 		var err error
 		switch route {
 		case "setters":
-			c, err = m.BuildSetters()
+			if genBool.Draw(t, "sethistory") {
+				// every claim was set before, to another valid value
+				prev := GenValid(t, p, true)
+				c, err = m.BuildSettersAfter(prev)
+				route = "setters-twice"
+			} else {
+				c, err = m.BuildSetters()
+			}
 			if err != nil {
 				t.Fatalf("valid set cannot be built through setters: %v [%s]", err, m.ClassVector())
 			}
@@ -278,13 +285,32 @@ func TestC09_RoundTrip(t *testing.T) {
 	}
 	rapid.Check(t, func(t *rapid.T) {
 		p := drawProf(t)
-		kind := rapid.SampledFrom([]string{"valid-setters", "valid-literal", "valid-decoded", "any-decoded", "any-decoded", "extension"}).Draw(t, "kind")
+		kind := rapid.SampledFrom([]string{"valid-setters", "valid-literal", "valid-decoded", "any-decoded", "any-decoded", "extension", "dup-profile-key"}).Draw(t, "kind")
 		var m *MClaims
 		var c psatoken.IClaims
 		var err error
 		valid := true
 		decode := psatoken.DecodeClaimsFromCBOR
 		switch kind {
+		case "dup-profile-key":
+			// a token carrying key 265 twice (a registered name each time, or
+			// an unregistered one): IF it decodes, whatever it decodes to must
+			// survive a re-encoding
+			m = GenValid(t, P2, false)
+			p = P2
+			names := []string{P2Name, ExtP2Name, "http://example.com/unknown"}
+			n1 := rapid.SampledFrom(names).Draw(t, "name1")
+			n2 := rapid.SampledFrom(names).Draw(t, "name2")
+			ps := bodyPairs(m)
+			i1 := rapid.IntRange(0, len(ps)).Draw(t, "pos1")
+			ps = append(ps[:i1], append([][2]*icbor.Node{icbor.P(icbor.U(265), icbor.Tstr(n1))}, ps[i1:]...)...)
+			i2 := rapid.IntRange(0, len(ps)).Draw(t, "pos2")
+			ps = append(ps[:i2], append([][2]*icbor.Node{icbor.P(icbor.U(265), icbor.Tstr(n2))}, ps[i2:]...)...)
+			if c, err = psatoken.DecodeClaimsFromCBOR(icbor.Encode(icbor.Map(ps...))); err != nil {
+				st.Case("", "undecodable")
+				return
+			}
+			valid = false // no claim about validity: only "never decodes to something else"
 		case "extension":
 			// a registered extension profile on either base profile, with the
 			// extra optional claim absent, zero, or non-zero
@@ -300,6 +326,9 @@ func TestC09_RoundTrip(t *testing.T) {
 			default:
 				v := rapid.Int64Range(0, 1<<53).Draw(t, "tsval")
 				ts = &v
+				if extRuleBroken(ts) {
+					v = 14
+				}
 			}
 			if c, err = buildExt(m, ts); err != nil {
 				t.Fatalf("VERIF-INFRA: %v", err)
@@ -356,6 +385,9 @@ func TestC09_RoundTrip(t *testing.T) {
 		cls := []string{p.String()}
 		if kind == "extension" {
 			cls = append(cls, "extension")
+		}
+		if kind == "dup-profile-key" {
+			cls = append(cls, "dup-profile-key-decoded")
 		}
 		if valid {
 			cls = append(cls, "valid")
